@@ -30,7 +30,7 @@ sys.path.insert(0, os.path.join(os.path.dirname(os.path.abspath(__file__)), ".."
 import check  # noqa: E402
 import tlc  # noqa: E402
 from ring import to_complex  # noqa: E402
-from enc import qubit_op_to_json, json_to_qubit_op, word_to_json, OffGrid, LETTER_INV  # noqa: E402
+from enc import qubit_op_to_json, json_to_qubit_op, word_to_json, json_to_gate, OffGrid, LETTER_INV  # noqa: E402
 
 import numpy as np  # noqa: E402
 
@@ -59,11 +59,11 @@ def viol(chk, key, detail, case):
 
 
 def hcfg(slots="S2", level=1, init="empty", nbset="NB12", maxcount=1, newcarrier=False, depth=3, resall=False,
-         emit=False, emitbh=True):
+         emit=False, emitbh=True, bigns="NoBig", bigcross=False):
     b = lambda x: "TRUE" if x else "FALSE"  # noqa: E731
     s = ("CONSTANTS\nSlots <- %s\nLevel = %d\nInitMode = \"%s\"\nNBSet <- %s\nMaxCount = %d\nNewCarrier = %s\nMaxDepth = %d\n"
-         "ResampleAll = %s\nEmit = %s\nEmitBH = %s\nINIT Init\nNEXT Next\n" % (
-             slots, level, init, nbset, maxcount, b(newcarrier), depth, b(resall), b(emit), b(emitbh)))
+         "ResampleAll = %s\nEmit = %s\nEmitBH = %s\nBigNs <- %s\nBigCross = %s\nINIT Init\nNEXT Next\n" % (
+             slots, level, init, nbset, maxcount, b(newcarrier), depth, b(resall), b(emit), b(emitbh), bigns, b(bigcross)))
     return s + "".join("INVARIANT %s\n" % i for i in H_INV)
 
 
@@ -174,6 +174,7 @@ class Replayer:
         self.objs = [None] * nslots
         self.inputs = []          # (dict given to the constructor, snapshot)
         self.jobs = []            # resampling observations for the trace judge
+        self.stat_fail = None     # 6-sigma band of a large resampling (statistical tail, reported separately)
         self.rng = random.Random(seed)
 
     def load(self, heap):
@@ -187,13 +188,20 @@ class Replayer:
         wrong_width = False
         for k, f in out_dict.items():
             v = f * n if kind == "freq" else f
-            if abs(v - round(v)) > 1e-9:
+            if abs(v - round(v)) > 1e-9 + 8 * abs(v) * 2.3e-16:      # a few ulps of v: (c / n) * n for n up to 2 * 10^7
                 exact = False
             if not isinstance(k, str) or len(k) != nb or set(k) - {"0", "1"}:
                 wrong_width = True
                 continue
             cnt[int(k, 2) if nb else 0] += int(round(v))
         out = {"nb": -2 if wrong_width else nb, "cnt": cnt}
+        if n >= 1000 and not wrong_width:
+            # statistical tail (not decided by TLC): every outcome within 6 sigma of the distribution resampled from
+            tot = sum(pre["cnt"])
+            for x, c in enumerate(pre["cnt"]):
+                p = c / tot
+                if abs(cnt[x] / n - p) > 6 * (p * (1 - p) / n) ** 0.5 + 1.0 / n:
+                    self.stat_fail = "outcome %s: frequency %.6f outside 6 sigma of %.6f at n=%d" % (kstr(x, nb), cnt[x] / n, p, n)
         self.jobs.append({"kind": "resample", "h": pre, "n": n, "out": out, "exact": exact, "ctx": ctx})
 
     def step(self, pre_heap, act, ret, post_heap, ctx):
@@ -257,6 +265,8 @@ class Replayer:
                 self.resample_job("counts", pre_heap[act["a"] - 1], act["n"], dict(r.counts), ctx)
                 if r.n_shots != act["n"]:
                     return ("resample:n_shots", "resample(%d).n_shots = %r" % (act["n"], r.n_shots))
+                if self.stat_fail:
+                    return ("resample:outside-6-sigma", self.stat_fail)
                 o[act["d"] - 1] = make_hist(post_heap[act["d"] - 1])       # continue from the specification's choice
             elif op == "fsplitlastragged":
                 ha, hb = pre_heap[act["a"] - 1], pre_heap[act["b"] - 1]
@@ -297,6 +307,8 @@ class Replayer:
                     r = get_resampled_frequencies(freqs, act["n"])
                     self.resample_job("freq", pre_heap[act["a"] - 1], act["n"], dict(r), ctx)
                     bad = None if abs(sum(r.values()) - 1) < 1e-9 else "resampled frequencies sum to %r" % sum(r.values())
+                    if not bad and self.stat_fail:
+                        return ("fresample:outside-6-sigma", self.stat_fail)
                 else:
                     raise tlc.TLCError("unknown action %r" % op)
                 if bad:
@@ -356,6 +368,111 @@ def replay_behaviour(chk, bh, seed):
             return bad, i, rp
         pre = st["heap"]
     return None, len(bh), rp
+
+
+# ---- end-to-end splitting: Backend.simulate with MEASURE / CMEASURE -------------------------------------------------
+def scfg(sn, maxm, maxc, minmeas, maxu, cvars, emit=True):
+    return ("CONSTANTS M = %d\nSN = %d\nMaxM = %d\nMaxC = %d\nMinMeas = %d\nMaxU = %d\nCVars <- %s\nSEmit = %s\nINIT Init\nNEXT Next\n"
+            "INVARIANT BranchesSumToOne\nINVARIANT JointSupportOK\n" % (M, sn, maxm, maxc, minmeas, maxu, cvars, "TRUE" if emit else "FALSE"))
+
+
+def prog_to_circuit(n, prog):
+    from tangelo.linq import Gate, Circuit
+    gates = []
+    for h in prog:
+        if h["name"] == "MEASURE":
+            gates.append(Gate("MEASURE", h["t"][0]))
+        elif h["name"] == "CMEASURE":
+            gates.append(Gate("CMEASURE", h["t"][0], parameter={"0": [json_to_gate(g, M) for g in h["ctl"][0]],
+                                                                 "1": [json_to_gate(g, M) for g in h["ctl"][1]]}))
+        else:
+            gates.append(json_to_gate(h, M))
+    return Circuit(gates, n_qubits=n)
+
+
+def freq_hist(fd, shots):
+    """frequency dictionary -> integer histogram value [nb, cnt] (nb = -2 when the keys differ in length or are
+    malformed) and whether every frequency is a multiple of 1/shots."""
+    lens = set(len(k) for k in fd)
+    if len(lens) != 1 or any((not isinstance(k, str)) or set(k) - {"0", "1"} for k in fd):
+        return {"nb": -2, "cnt": []}, True
+    nb = lens.pop()
+    cnt = [0] * (2 ** nb)
+    exact = True
+    for k, f in fd.items():
+        v = float(f) * shots
+        if abs(v - round(v)) > 1e-6:
+            exact = False
+        cnt[int(k, 2) if nb else 0] += int(round(v))
+    return {"nb": nb, "cnt": cnt}, exact
+
+
+def split_kind(prog):
+    m = any(h["name"] == "MEASURE" for h in prog)
+    c = any(h["name"] == "CMEASURE" for h in prog)
+    return "mixed" if m and c else "measure-only" if m else "cmeasure-only" if c else "no-measurement"
+
+
+_sims = {}
+
+
+def cirq_backend(n_shots=None):
+    from tangelo.linq import get_backend
+    if n_shots not in _sims:
+        _sims[n_shots] = get_backend("cirq", n_shots=n_shots)
+    return _sims[n_shots]
+
+
+def run_split(chk, tr, seed, jobs, sampled):
+    """Exact mode: every outcome string of non-zero probability as desired_meas_result, compared with TLC's exact branch
+    table.  Sampled mode: the three histograms go to the trace judge (SplitJob)."""
+    n, k, prog = tr["n"], tr["k"], tr["prog"]
+    kind = split_kind(prog)
+    case = {"kind": "split", "tr": {"n": n, "k": k, "prog": prog, "table": tr["table"]}}
+    if k > 0:
+        sim = cirq_backend(None)
+        for row in tr["table"]:
+            p = to_complex(row["p"], M).real
+            if p < 1e-12:
+                continue
+            b = "".join(str(x) for x in row["b"])
+            try:
+                f, _ = sim.simulate(prog_to_circuit(n, prog), desired_meas_result=b)
+                mid = dict(sim.mid_circuit_meas_freqs)
+            except Exception as e:
+                viol(chk, "split:exact:raised:" + kind, "desired_meas_result=%s: %s: %s" % (b, type(e).__name__, str(e)[:200]), case)
+                continue
+            chk.add_traces(1, "split_exact")
+            bad = None
+            if any(len(key) != n for key in f):
+                bad = "final-key-width: keys %s for %d qubits" % (sorted(f), n)
+            elif any(len(key) != k for key in mid):
+                bad = "mid-key-width: keys %s for %d measurements" % (sorted(mid), k)
+            elif abs(sum(f.values()) - 1) > 1e-9 or abs(sum(mid.values()) - 1) > 1e-9:
+                bad = "normalisation: final sums to %r, mid-circuit to %r" % (sum(f.values()), sum(mid.values()))
+            elif set(key for key, v in mid.items() if abs(v) > 1e-12) != {b}:
+                bad = "mid-circuit frequencies %r for the desired outcome %s" % (mid, b)
+            else:
+                exp = {kstr(x, n): to_complex(e, M).real / p for x, e in enumerate(row["probs"])}
+                err = max(abs(float(f.get(key, 0.0)) - v) for key, v in exp.items())
+                if err > 1e-9:
+                    bad = "final frequencies differ from the exact conditional distribution given %s (max err %.3g): %r" % (b, err, f)
+            if bad:
+                viol(chk, "split:exact:%s:%s" % (bad.split(":")[0].split(" ")[0], kind), "outcomes %s: %s" % (b, bad), case)
+    if sampled and k > 0:
+        shots = sampled
+        sim = cirq_backend(shots)
+        np.random.seed(seed)
+        try:
+            f, _ = sim.simulate(prog_to_circuit(n, prog), save_mid_circuit_meas=True)
+            joint, e1 = freq_hist(sim.all_frequencies, shots)
+            mid, e2 = freq_hist(sim.mid_circuit_meas_freqs, shots)
+            fin, e3 = freq_hist(f, shots)
+        except Exception as e:
+            viol(chk, "split:sampled:raised:" + kind, "%s: %s" % (type(e).__name__, str(e)[:200]), case)
+            return
+        jobs.append({"kind": "split", "n": n, "prog": prog, "shots": shots, "joint": joint, "mid": mid, "final": fin,
+                     "exact": e1 and e2 and e3, "ctx": case, "skind": kind})
 
 
 # ---- grouping -------------------------------------------------------------------------------------------------------
@@ -482,6 +599,9 @@ def run(chk):
              workers=4, kind="tr"),
         dict(name="h_new", cfg=hcfg(level=2, init="empty", nbset="NB123", maxcount=1 if q else 2, newcarrier=True, depth=1,
                                     emit=True, emitbh=False), workers=2, kind="tr"),
+        # shot numbers on the 10^7 chunk boundary of the sampler (each call costs seconds)
+        dict(name="h_big", cfg=hcfg(level=2, init="big", depth=1, emit=True, emitbh=False, bigns="BigQuick" if q else "BigFull",
+                                    bigcross=not q), workers=1, kind="tr"),
         dict(name="h_sim", cfg=hcfg(slots="S3", level=2, depth=10), workers=1, simulate="num=%d" % (60 if q else 1500),
              depth=12, seed=seed + 7, kind="bh"),
     ]
@@ -495,10 +615,18 @@ def run(chk):
     ]
     if not q:
         gruns.append(dict(name="g_bfs3", cfg=gcfg(3, 0, 1, "GCoefFull", "GPrepAll"), workers=2))
+    sruns = [
+        dict(name="s_bfs", cfg=scfg(2, 2, 2, 0, 0, "CV1" if q else "CV123"), workers=4),
+        dict(name="s_sim", cfg=scfg(2, 2, 2, 2, 2, "CV123"), workers=1, simulate="num=%d" % (60 if q else 800), depth=10, seed=seed + 29),
+    ]
+    if not q:
+        sruns.append(dict(name="s_bfs1", cfg=scfg(1, 2, 2, 0, 1, "CV123"), workers=2))
     alljobs = [dict(module="C18Histogram", name="c18/" + r["name"], timeout=7200, heap="6g",
                     **{k: v for k, v in r.items() if k not in ("name", "kind")}) for r in hruns]
     alljobs += [dict(module="C18Grouping", name="c18/" + r["name"], timeout=7200, **{k: v for k, v in r.items() if k != "name"})
                 for r in gruns]
+    alljobs += [dict(module="C18Split", name="c18/" + r["name"], timeout=7200, **{k: v for k, v in r.items() if k != "name"})
+                for r in sruns]
     alljobs.append(dict(module="C18Histogram", name="c18/coverage", workers=2, coverage=True,
                         cfg=hcfg(slots="S2", level=2, depth=2, emitbh=False)))
     import time
@@ -506,7 +634,8 @@ def run(chk):
     res = tlc.run_many(alljobs, max_parallel=PAR)
     t_tlc = time.time() - t0
     hres, gres, cov = res[:len(hruns)], res[len(hruns):len(hruns) + len(gruns)], res[-1]
-    for spec, r in zip(hruns + gruns, hres + gres):
+    sres = res[len(hruns) + len(gruns):len(hruns) + len(gruns) + len(sruns)]
+    for spec, r in zip(hruns + gruns + sruns, hres + gres + sres):
         if not r.ok:
             raise tlc.TLCError("C18 specification: a conservation law / S-invariant fails in the specification itself (%s): %s\n%s"
                                % (spec["name"], r.violated, r.out[-2000:]))
@@ -584,10 +713,29 @@ def run(chk):
             if not bad:
                 raise tlc.TLCError("binding failure: perturbed expectation for %s not noticed by the replay comparator" % op)
     chk.part("negative_controls_replay", perturbed=ctl_seen)
-    if ctl_seen < 8:
+    if ctl_seen < 8 and not chk.violations:
         raise tlc.TLCError("too few replay controls (%d)" % ctl_seen)
 
     # ===== V: resampling observations + grouping, judged by TLC ========================================================
+    # ===== end-to-end splitting through Backend.simulate (cirq) =========================================================
+    sjobs, seen, n_prog = [], set(), {}
+    for spec, r in zip(sruns, sres):
+        t = r.prints("TR")
+        chk.part("S_" + spec["name"], emitted=len(t))
+        for tr in t:
+            key = json.dumps(tr["prog"], sort_keys=True)
+            if key in seen:
+                continue
+            seen.add(key)
+            cs = content_seed(seed, tr["prog"])
+            n_prog[split_kind(tr["prog"])] = n_prog.get(split_kind(tr["prog"]), 0) + 1
+            run_split(chk, tr, cs, sjobs, 40 if (not q or cs % 2 == 0) else 0)
+    for x, j in enumerate(sjobs):
+        j["id"] = 2 * 10 ** 6 + x
+    chk.part("split", programs=n_prog, sampled=len(sjobs))
+    if not all(n_prog.get(kd) for kd in ("measure-only", "cmeasure-only", "mixed")):
+        raise tlc.TLCError("vacuity: split programs do not cover measure-only / cmeasure-only / mixed: %s" % n_prog)
+    t_split = time.time()
     gtrs = []
     for spec, r in zip(gruns, gres):
         t = r.prints("TR")
@@ -610,7 +758,7 @@ def run(chk):
             ctx = j.pop("ctx")
             j["id"] = 10 ** 6 + len(rj)
             rj.append((j, ctx))
-    jobs = gjobs + [j for j, _ in rj]
+    jobs = gjobs + [j for j, _ in rj] + [{k: v for k, v in j.items() if k not in ("ctx", "skind")} for j in sjobs]
     verdicts, results = tlc.judge("C18Trace", jobs, "c18/v", {"M": M}, timeout=7200, max_parallel=PAR)
     for r in results:
         chk.add_tlc(r)
@@ -625,7 +773,8 @@ def run(chk):
             fn = "map_measurements_qwc" if v.startswith("map-") else "group_qwc"
             viol(chk, "%s:%s" % (fn, v), "%s for operator %s seed=%d n_repeat=%d" % (
                 v, [t["w"] for t in j["terms"]], keep[j["id"]][1]["seed"], keep[j["id"]][1]["n_repeat"]), {"group": keep[j["id"]][1]})
-    chk.part("timing", tlc_spec_runs_s=round(t_tlc, 1), replay_s=round(t_replay, 1), group_and_judge_s=round(time.time() - t0 - t_tlc - t_replay, 1))
+    chk.part("timing", tlc_spec_runs_s=round(t_tlc, 1), replay_s=round(t_replay, 1), split_s=round(t_split - t0 - t_tlc - t_replay, 1),
+             group_and_judge_s=round(time.time() - t_split, 1))
     chk.part("group_verdicts", **stat)
     rstat = {}
     for j, ctx in rj:
@@ -636,6 +785,14 @@ def run(chk):
             viol(chk, "hist:resample:" + v, "%s: resampling %s to n=%d gave %s" % (v, j["h"], j["n"], j["out"]),
                           dict(ctx, kind="resample"))
     chk.part("resample_verdicts", **rstat)
+    sstat = {}
+    for j in sjobs:
+        v = verdicts[j["id"]]
+        sstat[v] = sstat.get(v, 0) + 1
+        chk.add_traces(1, "split_sampled")
+        if v != "ok":
+            viol(chk, "split:sampled:%s:%s" % (v, j["skind"]), "%s: joint=%s mid=%s final=%s" % (v, j["joint"], j["mid"], j["final"]), j["ctx"])
+    chk.part("split_verdicts", **sstat)
     check_expectations(chk, gjobs, keep, results)
     # trace-corruption controls
     ctl = group_controls(gjobs, verdicts)
@@ -654,10 +811,35 @@ def run(chk):
         c3 = copy.deepcopy(base)
         c3.update(id=10 ** 7 + 502, ctl="resample-inexact", exact=False)
         ctl += [c1, c2, c3]
+    oks = ([j for j in sjobs if verdicts[j["id"]] == "ok" and j["skind"] == "mixed" and j["mid"]["nb"] >= 1]
+           or [j for j in sjobs if verdicts[j["id"]] == "ok" and j["mid"]["nb"] >= 1])
+    if oks:
+        base = {k: v for k, v in oks[0].items() if k not in ("ctx", "skind")}
+        nz = [x for x, c in enumerate(base["joint"]["cnt"]) if c > 0][0]
+        for what in ("split-mid-lost-a-shot", "split-final-keeps-measurement-bits", "split-mid-misses-cmeasure-bits", "split-final-misaligned"):
+            c = copy.deepcopy(base)
+            c.update(id=10 ** 7 + 600 + len(ctl), ctl=what)
+            if what == "split-mid-lost-a-shot":
+                i = [x for x, v in enumerate(c["mid"]["cnt"]) if v > 0][0]
+                c["mid"]["cnt"][i] -= 1
+            elif what == "split-final-keeps-measurement-bits":
+                c["final"] = {"nb": c["final"]["nb"] + 1, "cnt": c["final"]["cnt"] + [0] * len(c["final"]["cnt"])}
+            elif what == "split-mid-misses-cmeasure-bits":
+                half = len(c["mid"]["cnt"]) // 2
+                c["mid"] = {"nb": c["mid"]["nb"] - 1, "cnt": [c["mid"]["cnt"][2 * x] + c["mid"]["cnt"][2 * x + 1] for x in range(half)]}
+            else:
+                c["final"]["cnt"] = list(reversed(c["final"]["cnt"]))
+                if c["final"]["cnt"] == base["final"]["cnt"]:
+                    c["final"]["cnt"][0] += 1
+                    c["final"]["cnt"][-1] -= 1
+            ctl.append(c)
+        _ = nz
     cv, _ = tlc.judge("C18Trace", ctl, "c18/ctl", {"M": M}, max_parallel=2)
     accepted = [c["ctl"] for c in ctl if cv[c["id"]] == "ok"]
     chk.part("negative_controls_trace", corrupted=len(ctl), rejected=len(ctl) - len(accepted), kinds=[c["ctl"] for c in ctl])
-    if accepted or len(ctl) < 7:
+    # (too few controls is a vacuity alarm on a healthy tree only: with violations at hand the accepted jobs the
+    #  controls are derived from may legitimately be missing)
+    if accepted or (len(ctl) < 11 and not chk.violations):
         raise tlc.TLCError("binding failure: corrupted records accepted %s (controls built: %d)" % (accepted, len(ctl)))
     if gjobs:
         j = gjobs[len(gjobs) // 2]
@@ -667,14 +849,18 @@ def run(chk):
                        "depth 3 over a small alphabet; -simulate depth 10) and C18Grouping (operators of <= 2 terms exhaustively on "
                        "2 qubits, 3..5 terms sampled on 3 qubits, three exact state preparations); transitions/behaviours are replayed "
                        "on real Histogram objects with every live object compared after every step; grouping outputs and resampling "
-                       "outcomes are judged by TLC (C18Trace)")
+                       "outcomes are judged by TLC (C18Trace); C18Split builds programs with MEASURE/CMEASURE in every order and "
+                       "Backend.simulate's mid-circuit/final split is compared with the exact branch table (exact) and judged by TLC (sampled)")
     chk.assumptions += [
         "a key with count 0 and an absent key denote the same histogram (the abstraction drops zero entries)",
         "actions on an empty histogram (every shot post-selected away) are not explored: frequencies / n_qubits are undefined there; "
         "the functional helpers are explored only where the selected mass is positive (renormalisation is part of their contract)",
         "Histogram(frequencies, n_shots) is exercised with frequencies that are exact multiples of 1/n_shots",
         "index sets / expected-outcome dictionaries are valid (indices inside the key width)",
-        "resampling is judged on its support/total/width contract and the 1/n grid, not on its distribution",
+        "resampling is judged on its support/total/width contract and the 1/n grid; at n >= 1000 a 6-sigma band per outcome is "
+        "added (statistical tail)",
+        "splitting through Backend.simulate: cirq backend, 2 qubits, CMEASURE with dictionary parameters, no nesting; exact mode "
+        "is a float comparison (1e-9) with TLC's exact conditional distribution",
         "exp_value_from_measurement_bases: float comparison (1e-9) with the exact value TLC computed; states on the 2pi/8 grid",
         "group_qwc with n_repeat > 1 re-seeds from the OS: any outcome must be a partition, which is what is judged",
     ]
@@ -700,6 +886,16 @@ def replay(chk, rec):
         verdicts, _ = tlc.judge("C18Trace", jobs, "c18/replay", {"M": M})
         print("resampling outcomes judged by TLC:", [(j["out"], verdicts[j["id"]]) for j in jobs], "replay:", bad)
         return bad is None and all(v == "ok" for v in verdicts.values())
+    if kind == "split":
+        c2 = check.Check("C18", ["quick"])
+        c2.known = []
+        sj = []
+        run_split(c2, case["tr"], content_seed(chk.seed, case["tr"]["prog"]), sj, 40)
+        jobs = [dict({k: v for k, v in j.items() if k not in ("ctx", "skind")}, id=i + 1) for i, j in enumerate(sj)]
+        verdicts, _ = tlc.judge("C18Trace", jobs, "c18/replay", {"M": M}) if jobs else ({}, None)
+        print("program:", [(h["name"], h["t"]) for h in case["tr"]["prog"]])
+        print("exact mode:", [v[:2] for v in c2.violations] or "conforms", "| sampled mode (TLC verdict):", list(verdicts.values()))
+        return not c2.violations and all(v == "ok" for v in verdicts.values())
     if "group" in case:
         info = case["group"]
         c2 = check.Check("C18", ["quick"])
